@@ -118,8 +118,10 @@ fn main() {
             let seed: u64 = args.get(4).and_then(|s| s.parse().ok()).unwrap_or(DEFAULT_SEED);
             let chk = checks::by_id(&id).unwrap_or_else(|| usage());
             let rs = check::run_seed(seed, chk.id(), idx);
-            let case = chk.generate(rs, idx, Tier::Quick);
-            println!("{}", serde_json::json!({"property": id, "signature": "", "case": case.to_json()}));
+            let tier = if args.get(5).map(|s| s.as_str()) == Some("thorough") { Tier::Thorough } else { Tier::Quick };
+            let sig = args.get(6).cloned().unwrap_or_default();
+            let case = chk.generate(rs, idx, tier);
+            println!("{}", serde_json::json!({"property": id, "signature": sig, "seed": seed, "run_index": idx, "tier": if tier == Tier::Thorough { "thorough" } else { "quick" }, "case": case.to_json()}));
         }
         "digest" => {
             // dst digest <Cxx> <runs> <jobs> <seed>
